@@ -2,6 +2,7 @@ package main
 
 import (
 	"fmt"
+	"math"
 	"math/rand"
 	"reflect"
 	"regexp"
@@ -527,6 +528,9 @@ func init() {
 				j := jobs[idx]
 				return c15Clone(r, j.t, j.f, j.tmpl)
 			}
+			if idx%16 == 5 {
+				return c15NumberData(r)
+			}
 			if idx%3 == 0 {
 				return c15Exec(r)
 			}
@@ -537,3 +541,53 @@ func init() {
 }
 
 var _ = dom.LeafNode
+
+// numbers in the context's data: a clone's rendered text fields print them the way the template engine prints the
+// value the data holds — a float stays a float (Go side only)
+func c15NumberData(r *rand.Rand) Case {
+	nums := []struct {
+		v    any
+		text string
+	}{
+		{5e6, "5e+06"}, {1.5e6, "1.5e+06"}, {1e19, "1e+19"}, {3.0, "3"}, {2.5, "2.5"}, {-4e7, "-4e+07"}, {7, "7"}, {9007199254740993, "9007199254740993"},
+		{math.Inf(1), "+Inf"}, {1e6, "1e+06"}, {999999.0, "999999"}, {int64(5000000), "5000000"},
+	}
+	a, b := nums[r.Intn(len(nums))], nums[r.Intn(len(nums))]
+	d := anyToContainer(map[string]any{"n": a.v, "cfg": map[string]any{"l": []any{b.v, "s"}}})
+	tmpl := "n={{ .n }} l0={{ index .cfg.l 0 }}"
+	want := "n=" + a.text + " l0=" + b.text
+	path := "out"
+	ops := []pipeline.Action{
+		&pipeline.LogOp{Message: tmpl},
+		&pipeline.TemplateOp{Template: "t", Path: tmpl},
+		&pipeline.ExportOp{File: &pipeline.ValOrRef{Val: tmpl}, Format: pipeline.OutputFormatYaml},
+		&pipeline.ImportOp{File: tmpl, Path: path, Mode: pipeline.ParseFileModeText},
+		pipeline.ActionSpec{Operations: pipeline.OpSpec{Log: &pipeline.LogOp{Message: tmpl}}},
+	}
+	op := ops[r.Intn(len(ops))]
+	var fail []string
+	var got string
+	pn := ""
+	_ = pipeline.New(pipeline.WithData(d)).Execute(&cloneProbe{run: func(ctx pipeline.ActionContext) {
+		pn = guard(func() {
+			switch c := op.CloneWith(ctx).(type) {
+			case *pipeline.LogOp:
+				got = c.Message
+			case *pipeline.TemplateOp:
+				got = c.Path
+			case *pipeline.ExportOp:
+				got = c.File.Val
+			case *pipeline.ImportOp:
+				got = c.File
+			case pipeline.ActionSpec:
+				got = c.Operations.Log.Message
+			}
+		})
+	}})
+	if pn != "" {
+		fail = append(fail, "panic in CloneWith: "+pn)
+	} else if got != want {
+		fail = append(fail, fmt.Sprintf("clone of %T over data n=%T(%v), l[0]=%T(%v): the templated field reads %q, expected %q", op, a.v, a.v, b.v, b.v, got, want))
+	}
+	return Case{Kind: "clone-number-data", Desc: map[string]any{"op": fmt.Sprintf("%T", op), "n": fmt.Sprint(a.v), "l0": fmt.Sprint(b.v), "rendered": got}, Fail: fail, Nontrivial: true, Key: fmt.Sprint("cnd", got, fmt.Sprintf("%T", op))}
+}
